@@ -867,7 +867,14 @@ func Recvmsg(fd int, p, oob []byte, flags int) (n, oobn int, recvflags int, from
 	}
 	e := c.erq[0]
 	c.erq = c.erq[1:]
-	total := 64 + 48
+	// the timestamping message, then the extended error with the offender's address behind it:
+	// a sockaddr_in (16 bytes) on an IPv4 socket, a sockaddr_in6 (28 bytes) on an IPv6 socket
+	v4 := c.local.Addr().Is4()
+	errLen := 16 + 16 + 16
+	if !v4 {
+		errLen = 16 + 16 + 28
+	}
+	total := 64 + (errLen+7)&^7
 	if len(oob) < total {
 		return 0, 0, unix.MSG_CTRUNC | unix.MSG_ERRQUEUE, nil, nil
 	}
@@ -876,10 +883,10 @@ func Recvmsg(fd int, p, oob []byte, flags int) (n, oobn int, recvflags int, from
 	}
 	putCmsgTimestamping(oob, e.stamp)
 	b := oob[64:]
-	if c.local.Addr().Is4() {
-		putCmsgHdr(b, 48, unix.SOL_IP, unix.IP_RECVERR)
+	if v4 {
+		putCmsgHdr(b, errLen, unix.SOL_IP, unix.IP_RECVERR)
 	} else {
-		putCmsgHdr(b, 48, unix.SOL_IPV6, unix.IPV6_RECVERR)
+		putCmsgHdr(b, errLen, unix.SOL_IPV6, unix.IPV6_RECVERR)
 	}
 	// struct sock_extended_err { u32 errno; u8 origin, type, code, pad; u32 info; u32 data; }
 	binary.LittleEndian.PutUint32(b[16:], uint32(unix.ENOMSG))
